@@ -1,3 +1,4 @@
+import ObiVerif.Model.KmerSim
 import ObiVerif.Model.Kmer
 import ObiVerif.Model.DeBruijn
 import ObiVerif.Model.DeBruijnCov
@@ -176,9 +177,60 @@ def showIObs : IObs → String
   | .len n => s!"len={n}"
   | .matched n m f => s!"len={n} m={showMatch m} f={showMatch f}"
 
+/-! ### glue pass: the commands obikmersimcount / obikmermatch (`ks`, Model/KmerSim.lean) -/
+
+/-- an option value of a `ks` case: `d` = option absent (the default of the variable) -/
+def optInt (s : String) (dflt : Int) (lo hi : Int) : Option Int :=
+  if s = "d" then some dflt else
+    match s.toInt? with
+    | some v => if lo ≤ v ∧ v ≤ hi ∧ toString v = s then some v else none
+    | none => none
+
+def optNat (s : String) (lo hi : Nat) : Option Nat :=
+  match s.toNat? with
+  | some v => if lo ≤ v ∧ v ≤ hi ∧ toString v = s then some v else none
+  | none => none
+
+def isLetters (s : List UInt8) : Bool :=
+  !s.isEmpty && s.length ≤ 2000 && s.all fun b => (97 ≤ b.toNat && b.toNat ≤ 122) || (65 ≤ b.toNat && b.toNat ≤ 90)
+
+/-- `ks <count|match> <form> <k|d> <sparse> <min|d> <maxocc|d> <self> <ncpu> <batch> <obs> <nref> <refs> <reads>`:
+the options as the parser leaves them, then `cliLookForSharedKmers` / `cliAlignCandidates`; the address ranks are the
+identity (`cli_kmersim_exact` proves the answer independent of them); `obs` (match): which reads got a record -/
+def runKs (cmd form k sp mn mo self ncpu batch obs nref : String) (seqs : List String) : String :=
+  match optNat form 0 3, optInt k 30 0 90, optInt mn 1 (-3) 1000, optInt mo (-1) (-1) 1000, optNat ncpu 2 16,
+      optNat batch 1 5000, optNat nref 0 200, seqs.mapM unhex with
+  | some _, some k, some mn, some mo, some _, some _, some nref, some seqs =>
+    if (cmd ≠ "count" ∧ cmd ≠ "match") ∨ (sp ≠ "0" ∧ sp ≠ "1") ∨ (self ≠ "0" ∧ self ≠ "1") ∨ seqs.length < nref
+        ∨ !(seqs.all isLetters) then "bad-op" else
+      let seqs := seqs.map fun s => s.map lower
+      let o : KmerSim.Opts := ⟨k.toNat, sp == "1", mn, mo, self == "1"⟩
+      let refs := seqs.take nref
+      let reads := seqs.drop nref
+      let cells := fun (l : List String) => if l.isEmpty then "-" else joinC l
+      if cmd = "count" then
+        match KmerSim.cliLookForSharedKmers o id refs reads with
+        | .fatal => "fatal"
+        | .panic => "panic"
+        | .ok recs =>
+          match recs with
+          | [] => "k=- sp=- n=-"
+          | r :: _ => s!"k={r.kmerSize} sp={if r.sparseKmer then 1 else 0} n={cells (recs.map fun r => toString r.matchCount)}"
+      else
+        match KmerSim.cliAlignCandidates o id refs reads with
+        | .fatal => "fatal"
+        | .panic => "panic"
+        | .ok cands =>
+          let mask := if obs = "-" then [] else obs.splitOn ","
+          if mask.length ≠ cands.length ∨ mask.any (fun b => b ≠ "0" ∧ b ≠ "1") then "bad-op" else
+            s!"n={cells ((cands.zip mask).map fun (c, b) => if b = "1" then toString c.length else "-")}"
+  | _, _, _, _, _, _, _, _ => "bad-op"
+
 /-- one sequential operation (the words of its case line) -/
 def runWords (ws : List String) : String :=
   match ws with
+  | "ks" :: cmd :: form :: k :: sp :: mn :: mo :: self :: ncpu :: batch :: obs :: nref :: seqs =>
+    runKs cmd form k sp mn mo self ncpu batch obs nref seqs
   | ["e4", s] =>
     match unhex s with
     | some s => hexCodes (encode4mer (s.map lower))
